@@ -130,6 +130,60 @@ def expr_ratio(node, env=None, atom=None, depth=0):
     return Ratio.atom(leaf_text(node, env, atom, depth))
 
 
+ARANGE = ("np.arange", "numpy.arange", "range")
+
+
+def affine_seq(node, env=None, atom=None, depth=0):
+    """a sequence expression as an arithmetic progression -> dict(first, step, count) of Ratios, or None when the
+    expression is not one of: linspace(a, b, n) · arange([a,] b) · seq ± scalar · scalar ± seq · seq * / scalar ·
+    np.array(seq) · a local bound to one of those"""
+    env = env if env is not None else {}
+    if depth > 30:
+        return None
+    if isinstance(node, ast.Name):
+        n2, e2 = resolve(node, env)
+        if n2 is node:
+            return None
+        return affine_seq(n2, e2, atom, depth + 1)
+    if isinstance(node, ast.Call):
+        fn = norm(node.func)
+        if fn in LINSPACE and len(node.args) >= 3:
+            a = expr_ratio(node.args[0], env, atom)
+            b = expr_ratio(node.args[1], env, atom)
+            n = expr_ratio(node.args[2], env, atom)
+            if (n - 1).n.is_zero():
+                return None
+            return dict(first=a, step=(b - a) / (n - 1), count=n)
+        if fn in ARANGE and 1 <= len(node.args) <= 2 and not node.keywords:
+            a = expr_ratio(node.args[0], env, atom) if len(node.args) == 2 else Ratio(0)
+            b = expr_ratio(node.args[-1], env, atom)
+            return dict(first=a, step=Ratio(1), count=b - a)
+        if fn in ("np.array", "np.asarray", "numpy.array") and node.args:
+            return affine_seq(node.args[0], env, atom, depth + 1)
+        return None
+    if isinstance(node, ast.BinOp):
+        l = affine_seq(node.left, env, atom, depth + 1)
+        r = affine_seq(node.right, env, atom, depth + 1)
+        if (l is None) == (r is None):
+            return None
+        seq, other, left_is_seq = (l, node.right, True) if l is not None else (r, node.left, False)
+        try:
+            k = expr_ratio(other, env, atom)
+        except FormulaError:
+            return None
+        if isinstance(node.op, ast.Add):
+            return dict(first=seq["first"] + k, step=seq["step"], count=seq["count"])
+        if isinstance(node.op, ast.Sub):
+            if left_is_seq:
+                return dict(first=seq["first"] - k, step=seq["step"], count=seq["count"])
+            return dict(first=k - seq["first"], step=-seq["step"], count=seq["count"])
+        if isinstance(node.op, ast.Mult):
+            return dict(first=seq["first"] * k, step=seq["step"] * k, count=seq["count"])
+        if isinstance(node.op, ast.Div) and left_is_seq and not k.n.is_zero():
+            return dict(first=seq["first"] / k, step=seq["step"] / k, count=seq["count"])
+    return None
+
+
 def leaf_text(node, env, atom, depth=0):
     """canonical text of a non-arithmetic leaf, with locals substituted inside subscripts"""
     if depth > 60:
